@@ -194,14 +194,15 @@ def run_case(case):
                f"{'sharded' if dst_sharded else 'plain'} args {args}")
         before = shardlib.tree_digest(src)[0]
         sdata, _ = _read_all(np, src)
-        p = subprocess.run([sys.executable, "-W", "ignore", "-m",
-                            "neuroglancer_scripts.scripts.convert_chunks", *args, src_url, dst],
-                           capture_output=True, text=True, timeout=300,
-                           env=dict(os.environ, TQDM_DISABLE="1"))
-        if p.returncode != 0:
+        from harness import cli
+        report = os.path.join(top, "child-monitors.jsonl")
+        rc, tail, _out = cli.run("convert_chunks", [*args, src_url, dst], report=report,
+                                 timeout=300)
+        from harness.core import merge_obs
+        merge_obs(obs, cli.read_report(report))
+        if rc != 0:
             v.append({"kind": "convert-chunks-failed",
-                      "detail": f"{ctx}: exit status {p.returncode}: "
-                      f"{p.stderr.strip().splitlines()[-1:]}"})
+                      "detail": f"{ctx}: exit status {rc}: {tail}"})
             return {"violations": v, "obs": obs}
         obs["conversions"] = 1
         if shardlib.tree_digest(src)[0] != before:
@@ -262,4 +263,7 @@ def gates(obs, tier):
         and obs.get("sharded_dst", 0) > 5,
         "encoding_changes": obs.get("encoding_change", 0) > 10,
         "multi_scale": obs.get("scales", 0) > obs.get("conversions", 0),
+        "monitors_active_inside_the_command_processes": obs.get("child_processes", 0) > 50
+        and obs.get("child_write_chunk_events", 0) > 1000
+        and obs.get("child_contract_evaluations", {}).get("compressed_morton_code", 0) > 100,
     }
